@@ -146,7 +146,7 @@ pub trait Prop {
 		OpRes::Skipped("no custom handler".into())
 	}
 	/// whether a genuine panic inside a wallet call is this property's business
-	fn owns_panics(&self) -> bool {
+	fn owns_panic(&self, _step: &Step) -> bool {
 		false
 	}
 }
@@ -261,7 +261,7 @@ impl Run {
 			}
 		}
 		if let Some(p) = &out.panic {
-			if prop.owns_panics() {
+			if prop.owns_panic(&step) {
 				let site = p.split(" :: ").next().unwrap_or("?").to_owned();
 				v.push(self.viol(
 					"no_panic",
@@ -327,12 +327,13 @@ pub fn generate(prop: &mut dyn Prop, run: &mut Run, max_steps: usize) -> (Vec<Vi
 			Some(s) => s,
 			None => break,
 		};
+		let stc = st.clone();
 		let (out, v) = run.step(prop, st);
 		if !v.is_empty() {
 			all.extend(v);
 			break;
 		}
-		if out.panic.is_some() && !prop.owns_panics() {
+		if out.panic.is_some() && !prop.owns_panic(&stc) {
 			aborted = Some("panic outside the property's scope".to_owned());
 			break;
 		}
@@ -360,7 +361,7 @@ pub fn replay(prop: &mut dyn Prop, run: &mut Run, trace: &[Step]) -> (Vec<Violat
 			all.extend(v);
 			break;
 		}
-		if out.panic.is_some() && !prop.owns_panics() {
+		if out.panic.is_some() && !prop.owns_panic(st) {
 			aborted = Some("panic outside the property's scope".to_owned());
 			break;
 		}
